@@ -10,6 +10,7 @@
 -/
 import Emu.Basic.Bytes
 import Emu.Basic.Sort
+import Emu.Basic.Assoc
 import Emu.Generated.Consts
 
 namespace Emu.Gcs
@@ -34,8 +35,12 @@ deriving DecidableEq, Repr, Inhabited
 /-- A bucket's objects, ascending by name (btree / sorted walk). -/
 abbrev Objs := List Obj
 
-def Objs.get (os : Objs) (n : Bytes) : Option Obj := os.find? (·.name == n)
-def Objs.delete (os : Objs) (n : Bytes) : Objs := os.filter (·.name != n)
+def Objs.get : Objs → Bytes → Option Obj
+  | [], _ => none
+  | x :: xs, n => if x.name == n then some x else Objs.get xs n
+def Objs.delete : Objs → Bytes → Objs
+  | [], _ => []
+  | x :: xs, n => if x.name == n then Objs.delete xs n else x :: Objs.delete xs n
 def Objs.put : Objs → Obj → Objs
   | [], o => [o]
   | x :: xs, o =>
@@ -122,10 +127,7 @@ structure Store where
   nextId : Nat := 0
 deriving Inhabited
 
-def Store.bucket? (s : Store) (b : Bytes) : Option Objs :=
-  match s.buckets.find? (·.1 == b) with
-  | some (_, os) => some os
-  | none => none
+def Store.bucket? (s : Store) (b : Bytes) : Option Objs := aget s.buckets b
 
 def Store.obj? (s : Store) (b n : Bytes) : Option Obj :=
   match s.bucket? b with
@@ -133,9 +135,7 @@ def Store.obj? (s : Store) (b n : Bytes) : Option Obj :=
   | none => none
 
 def Store.setBucket (s : Store) (b : Bytes) (os : Objs) : Store :=
-  if s.buckets.any (·.1 == b) then
-    { s with buckets := s.buckets.map fun e => if e.1 == b then (b, os) else e }
-  else { s with buckets := s.buckets ++ [(b, os)] }
+  { s with buckets := aset s.buckets b os }
 
 /-- `Store.Add`: creates the bucket if needed; new generation, metageneration 1. -/
 def Store.add (s : Store) (b n : Bytes) (content : Bytes) (m : Meta) : Store :=
